@@ -963,6 +963,29 @@ def extract(bdir):
                    "def %s (heart_beat_index num_hb_to_do current_heart_beat : Int) : Int × Int × Int :=\n  (%s,\n   %s,\n   %s)\n"
                    % (doc, name, sy.state["heart_beat_index"], sy.state["num_hb_to_do"], sy.state["current_heart_beat"]))
 
+    # ---------------- call_heart_beat: where current_heart_beat is cleared relative to the sweep and the call_out dispatch ---
+    def calls_named(n, name):
+        return any(x.get("kind") == "CallExpr" and Sym.callee(x) == name for x in walk(n))
+    tpos = {0: [fi], 1: [], 2: [], 3: []}
+    for i, st in enumerate(ctop):
+        a_ = assign_of(st)
+        if a_ and a_[0] == "current_heart_beat" and is_zero(a_[1]):
+            tpos[1].append(i)
+        if calls_named(st, "look_for_objects_to_swap"):
+            tpos[2].append(i)
+        if calls_named(st, "call_out"):
+            tpos[3].append(i)
+    n_clear = sum(1 for x in walk(chb) if assign_of(x) and assign_of(x)[0] == "current_heart_beat" and is_zero(assign_of(x)[1]))
+    if any(len(v) != 1 for v in tpos.values()) or n_clear != 1:
+        raise TieBroken("call_heart_beat:tail", "call_heart_beat: expected, at top level and once each, the guarded round, "
+                        "`current_heart_beat = 0`, the look_for_objects_to_swap () call and the call_out () call; found %s"
+                        % {k: len(v) for k, v in tpos.items()})
+    tail = [k for k, _ in sorted(tpos.items(), key=lambda kv: kv[1][0])]
+    info["chbTail"] = tail
+    out.append("/-- src/backend.c call_heart_beat, top-level order of 0 = the guarded round, 1 = `current_heart_beat = 0`,\n"
+               "    2 = the reset()/clean_up() sweep `look_for_objects_to_swap ()`, 3 = the dispatch `call_out ()` -/\n"
+               "def chbTail : List Nat := %s\n" % str(tail))
+
     # ---------------- call_heart_beat: the statements around the call of heart_beat() --------------------------------
     def find_block(n):
         """the compound statement that directly holds the call_function statement"""
